@@ -38,7 +38,7 @@ def classify(pid, d):
 
 CLASSIFIERS = {}
 
-ALL_EXTRACTORS = ["Basic", "Message", "Conversion", "Session", "Service", "SigGrammar", "Value", "Reader", "Encoding", "GenReaders"]
+ALL_EXTRACTORS = ["Basic", "Message", "Conversion", "Session", "Service", "SigGrammar", "Value", "Reader", "Encoding", "GenReaders", "Endpoint"]
 
 
 def lean_string_list(path, name):
@@ -184,5 +184,22 @@ PROPS = {
             "the IDL parser has no Lean model yet: its inputs are decided by the harness oracle alone",
         ],
         "timeout": {"quick": 600, "thorough": 3000},
+    },
+    "C17": {
+        "level": "proof",
+        "extract": ["Endpoint"],
+        "rule": "exact mode: random sequences (8-38 ops) on a real endpoint over an in-memory connection: MakeHandler "
+                "(filters = residue classes of the action id, some removing themselves on a given message id, queue "
+                "capacity 1-3), RemoveHandler (live, removed, unknown ids), incoming events and calls (each followed by a "
+                "sentinel message so that dispatch is known to have finished), consumer reads, Close or peer close; slot "
+                "indices, results and the final per-handler record (messages received, callback count, queue closed) "
+                "are compared with the table machine; race mode: 4 and 12 goroutines mixing the same operations with a "
+                "shutdown in the middle, in a child process (double close / send on closed channel are fatal), every "
+                "handler registered before the shutdown must be closed exactly once",
+        "assumptions": [
+            "each action of the model is one critical section of handlersMutex (tied by the regenerated lock/operation sequences)",
+            "closers and filters do not call back into the endpoint (the API documents this precondition)",
+            "the 'consumer blocked' error reply is sent while holding the table lock: progress assumes the peer reads or the stream is closed",
+        ],
     },
 }
